@@ -671,10 +671,15 @@ def exec_try(eng: Engine, fn: FnCtx, s: ast.Try, st: State) -> Iterator[Outcome]
 				partial = (not full) and getattr(exc, 'any_subclass', False) and any(eng.exc_subclass(nm, exc.cname) or nm not in BUILTIN_NAMES and not nm.startswith('Errors.') for nm in names)
 				if full or partial:
 					sh = sx.copy()
+					if partial and names:
+						# what this handler sees of a "may raise anything" external is an instance of the handler's own class
+						exc_h = ExcVal(None, cname=names[0], args=list(exc.args))
+					else:
+						exc_h = exc
 					if h.name:
-						sh.env[h.name] = exc
+						sh.env[h.name] = exc_h
 					prev = fn.__dict__.get('handling')
-					fn.__dict__['handling'] = exc
+					fn.__dict__['handling'] = exc_h
 					try:
 						for o in exec_block(eng, fn, h.body, sh):
 							yield o
